@@ -113,7 +113,7 @@ def run(tier):
                 a = mir.deepstrip(body.origin_operand(t["args"][0]))
                 ck.ob("W2-slot-gets-own-bits", "task/%s/%s" % (p, name), a[0] == "field" and a[2] == "waker" and base[0] == "field" and mir.erase_callsites(a[1]) == mir.erase_callsites(base[1]),
                       "%s passes %s to the record's `%s` slot instead of the record's own waker bits" % (p, mir.fmt(a)[:100], name))
-    ck.floor("invocations of record vtable slots", n_inv, 3)
+    ck.floor("invocations of record vtable slots", n_inv, 2)
     ck.ob("W2-record-releases-bits-once", "task/CRawWaker", has_drop_impl,
           "CRawWaker has no Drop impl invoking its `drop` slot: the cloned waker stored in the record is never released by the record itself")
     rd = [x for p, x in fns.items() if x.get("impl_trait") == "std::ops::Drop" and x.get("impl_self_adt") == T + "CRawWaker"]
@@ -144,6 +144,14 @@ def run(tier):
                     body = summ[p][1]
                     ic = icalls(body)
                     ok = len(ic) == 1 and body.on_all_paths_to_return(ic[0][0]) and slot_of_icall(body, ic[0][1])[0] == "wake_by_ref"
+                    if not ok:
+                        # through local helpers: every path of the summary performs exactly one indirect call, and it goes through a
+                        # `wake_by_ref` slot of the record's vtable
+                        ev = sem.Evaluator(fns, {}, inline=lambda q: q in fns)
+                        outs = ev.run(fns[p], [("sym", "data")])
+                        ok = bool(outs) and all(o.kind == "ret" and len([e for e in o.effects if e[0] == "icall"]) == 1 and
+                                                sem.strip([e for e in o.effects if e[0] == "icall"][0][1])[0] == "fld" and
+                                                sem.strip([e for e in o.effects if e[0] == "icall"][0][1])[3] == "wake_by_ref" for o in outs)
                     ck.ob("W5-owned-waker-wakes-once", "task/" + p, ok, "%s must wake the shared record exactly once through its wake_by_ref slot" % p)
         # to_raw itself leaks the handle into the RawWaker data pointer
         o = mir.Body(tr).origin_local(0)
